@@ -130,6 +130,15 @@ def documents(draw: Any, kind: str = 'function', fmt_family: str = 'markup', max
             fields.append({'tag': 'raise', 'arg': 'ValueError', 'words': c.words(2), 'type': None})
         if fmt_family == 'markup' and draw(st.booleans()):
             fields.append({'tag': 'keyword', 'arg': 'kw1', 'words': c.words(2), 'type': None})
+    if not epytext:
+        # a field body with structure: introduction ending in '::', a literal block, and (mostly) a paragraph after it
+        for x in fields:
+            # (a google "Returns" entry without a type reads everything before the first colon as the type: no colons there)
+            if x['tag'] in ('param', 'return', 'raise') and (x['tag'] != 'return' or x.get('type')) and draw(st.integers(0, 2)) == 0:
+                x['lit'] = {'lines': [ln if not ln.startswith(' ') else 'first' for ln in draw(st.lists(st.sampled_from(LITERAL_LINES + ['for i in s:', '    handle(i)']), min_size=1, max_size=3))],
+                            # (google/numpy "Raises" entries are converted to a field whose body starts on the marker line: a
+                            # literal block that ends such a body is not indented relative to anything - docutils rejects it)
+                            'after': c.words(draw(st.integers(1, 3))) if (draw(st.integers(0, 3)) > 0 or (x['tag'] == 'raise' and fmt_family == 'sections')) else []}
     if kind == 'class':
         for v in draw(st.lists(st.sampled_from(['iv1', 'iv2']), unique=True, max_size=2)):
             fields.append({'tag': 'ivar', 'arg': v, 'words': c.words(2), 'type': c.words(1) if draw(st.booleans()) else None})
@@ -258,6 +267,15 @@ def _blocks(blocks: List[Dict[str, Any]], fmt: str, indent: int, under: str = '=
     return out
 
 
+def _lit_lines(lit: Dict[str, Any], body_indent: int) -> List[str]:
+    """The literal block of a structured field body (indented 4 more than the body) and the paragraph after it."""
+    out = ['']
+    out += [' ' * (body_indent + 4) + ln for ln in lit['lines']]
+    if lit['after']:
+        out += ['', ' ' * body_indent + ' '.join(lit['after'])]
+    return out
+
+
 def serialise(doc: Dict[str, Any], fmt: str) -> str:
     if fmt == 'plaintext':
         return '\n'.join(_blocks(doc['blocks'], 'restructuredtext', 0))
@@ -273,7 +291,16 @@ def serialise(doc: Dict[str, Any], fmt: str) -> str:
             return ('@%s: %s' if fmt == 'epytext' else ':%s: %s') % (head, text)
         for x in f:
             tag = x.get('name') if x['tag'] == 'unknown' else x['tag']
-            lines.append(fl(tag, x['arg'], ' '.join(x['words'])))
+            if x.get('lit') and fmt != 'epytext':
+                if x['lit']['after']:
+                    lines.append(fl(tag, x['arg'], ' '.join(x['words']) + '::'))
+                else:
+                    # the block ends the field body: the body starts on the line after the marker, so that its indentation is known
+                    lines.append(fl(tag, x['arg'], '').rstrip())
+                    lines.append('  ' + ' '.join(x['words']) + '::')
+                lines += _lit_lines(x['lit'], 2)
+            else:
+                lines.append(fl(tag, x['arg'], ' '.join(x['words'])))
             if x.get('type'):
                 ttag = {'param': 'type', 'keyword': 'type', 'return': 'rtype', 'ivar': 'type', 'cvar': 'type'}[x['tag']]
                 lines.append(fl(ttag, x['arg'] if ttag == 'type' else None, ' '.join(x['type'])))
@@ -291,17 +318,23 @@ def serialise(doc: Dict[str, Any], fmt: str) -> str:
                 lines.append(title + ':')
                 for x in xs:
                     text = ' '.join(x['words'])
+                    if x.get('lit'):
+                        text += '::'
                     if x['tag'] == 'return':
                         lines.append('    %s%s' % ((' '.join(x['type']) + ': ') if x.get('type') else '', text))
                     elif x['tag'] == 'raise':
                         lines.append('    %s: %s' % (x['arg'], text))
                     else:
                         lines.append('    %s%s: %s' % (x['arg'], (' (%s)' % ' '.join(x['type'])) if x.get('type') else '', text))
+                    if x.get('lit'):
+                        # the lines that follow the first line of a "Returns" entry are indented to match it (the Google style
+                        # guide example); those of an argument or exception are indented relative to its name
+                        lines += _lit_lines(x['lit'], 4 if x['tag'] == 'return' else 8)
             else:
                 lines.append(title)
                 lines.append('-' * len(title))
                 for x in xs:
-                    text = ' '.join(x['words'])
+                    text = ' '.join(x['words']) + ('::' if x.get('lit') else '')
                     if x['tag'] == 'return':
                         lines.append(' '.join(x['type']) if x.get('type') else 'object')
                         lines.append('    ' + text)
@@ -311,4 +344,6 @@ def serialise(doc: Dict[str, Any], fmt: str) -> str:
                     else:
                         lines.append('%s%s' % (x['arg'], (' : ' + ' '.join(x['type'])) if x.get('type') else ''))
                         lines.append('    ' + text)
+                    if x.get('lit'):
+                        lines += _lit_lines(x['lit'], 4)
     return '\n'.join(lines)
